@@ -88,10 +88,10 @@ var NullRecorder = true
 type nullRecorder struct{ tables []string }
 
 func (r *nullRecorder) CreateTable(name string, _ any) { r.tables = append(r.tables, name) }
-func (r *nullRecorder) InsertData(string, any)          {}
-func (r *nullRecorder) ListTables() []string            { return r.tables }
-func (r *nullRecorder) Flush()                          {}
-func (r *nullRecorder) Close() error                    { return nil }
+func (r *nullRecorder) InsertData(string, any)         {}
+func (r *nullRecorder) ListTables() []string           { return r.tables }
+func (r *nullRecorder) Flush()                         {}
+func (r *nullRecorder) Close() error                   { return nil }
 
 // NewFullWith creates a full environment from a customised builder.
 func NewFullWith(b simulation.Builder) *Env {
